@@ -19,8 +19,38 @@ REC = "fiber_spinlock_internal_t"
 CNT = "fiber_spinlock_internal_t::counters"
 
 
+def check_foreign_thread(ctx, P):
+    """the spinlock is also taken by plain threads (the close() shim takes the per-descriptor spinlock on whatever thread calls close()):
+    its functions must not dereference the per-thread manager, which such threads do not have, without a NULL test"""
+    o = ctx.ob("lock.foreign", "", "fiber_spinlock_lock / trylock / unlock dereference fiber_manager_get() only behind a non-NULL test",
+               "a contender that is a thread without a manager (a plain pthread, or any thread before fiber_manager_init) takes its ticket and then "
+               "crashes on the first spin: the lock is never released to the tickets behind it")
+    bad = None
+    n = 0
+    for name in ("fiber_spinlock_lock", "fiber_spinlock_trylock", "fiber_spinlock_unlock"):
+        fn = P.fn(name)
+        for m in fn.nodes:
+            if m.k != "MemberExpr" or not m.arrow:
+                continue
+            b = fn.resolve(m.kids[0])
+            if b is None or b.k != "CallExpr" or b.callee != "fiber_manager_get":
+                continue
+            n += 1
+            base = strip(m.kids[0])
+
+            def cp(leaf, pol, base=base, b=b):
+                l = fn.resolve(leaf)
+                same = (l is b) or (strip(leaf).k == "DeclRefExpr" and base.k == "DeclRefExpr" and strip(leaf).did == base.did)
+                return same and pol is True
+            if fn.guarded(m, cp) is not None:
+                bad = bad or ("`%s` in %s dereferences the manager of the calling thread without testing it" % (m.text[:50], name), m)
+    o.check(bad is None, "%d manager dereference(s), all guarded" % n, bad[0] if bad else None, site=bad[1] if bad else None,
+            construct="NULL manager dereferenced in the spinlock")
+
+
 def run(ctx):
     P = ctx.prog()
+    check_foreign_thread(ctx, P)
     lay = {f["name"]: f for f in P.record(CNT)["fields"]}
     top = {f["name"]: f for f in P.record(REC)["fields"]}
     o = ctx.ob("layout", "", "`ticket` and `users` are 32-bit atomics at bit offsets 0 and 32 of the 64-bit `blob`",
